@@ -35,7 +35,7 @@ TEXT = {
  "C14": ("proof", "Integer clauses: for each of the 10 integer types and the range forms .., a..b, a..=b, ..b, ..=b a loop-free Kani harness over fully symbolic bounds and raw output proves membership, and an explicit witness proves reachability of every value (complete, bit-precise). Float clause: a loop-free Kani harness over ALL finite f64 bounds and all raw outputs proves start <= x < end (bit-precise IEEE arithmetic; complete) - it failed on the pinned tree and holds after fix 93b88e7. Determinism: next_raw/from_seed verified by Verus (state' = state*A + C mod 2^64, output = a pinned function of the state). Serial structure: Verus lemma that for the library's constants the draw from 0..2^k (k <= 8) is NOT a function of the previous draw (the mechanism behind the period-2^k streams of the pinned tree, repaired by fix 86550aa). Shuffle: Rand::shuffle is verified in Verus to return a rearrangement for EVERY slice length, modularly against the `draw lies in the range` contract of Rand::next / Randomable (which is verified in the same unit for the unsigned forms of every width and by Kani for all types and forms).",
          "Statistical clauses ('every rearrangement of a short slice reached with near-equal frequency', 'no short period') have no contract-level decision beyond the lemma above: they are checked by BOUNDED enumeration on the real code (120 000 seeds x lengths 2..6 x 3 seed patterns, 6-sigma tolerance; 512 draws x 9 small ranges x 6 seeds, no period <= 64) - labelled bounded, never counted as proved. The clauses of next_raw that fix its step and output functions are implementation pins: their failure alone is exit 2, it becomes a violation only together with a failing stream found on the real code. The additional Kani shuffle harness on the compiled crate is bounded (len <= 4). ..b / ..=b require b > 0 / b >= 0 (otherwise the code panics)."),
  "C15": ("proof", "next_submask / next_supermask verified for all 12 integer types (bit-vector reasoning; new state = largest submask below / smallest supermask above, by bit pattern), with lemmas that any run of steps visits every mask once in order; next_permutation verified incl. minimality (no arrangement strictly between) with repeated elements; PermutationIter::next and iter_permutations over that contract.",
-         "Element type of permutations monomorphised to u32 (R4). assume_specification for slice swap/reverse/sort, count_zeros. The from_fn/chain wrappers iter_submasks/iter_supermasks, ones(), and the neighbour iterators are outside Verus' subset: Kani harnesses (u8/i8 masks exhaustive; neighbours with symbolic n,m,i,j)."),
+         "Element type of permutations monomorphised (R4) to u32, i64, u8, i128, usize (one Verus profile each; not generic over a user Ord). assume_specification for slice swap/reverse/sort, count_zeros. The from_fn/chain wrappers iter_submasks/iter_supermasks, ones(), and the neighbour iterators are outside Verus' subset: Kani harnesses (u8/i8 masks exhaustive; neighbours with symbolic n,m,i,j)."),
  "C18": ("proof", "Derived relations only: gt, le, ge, partial_cmp, abs, the assigning ops, Default and the ZeroOne constants are verified over TRUSTED contracts of the x87 asm primitives (lt, neg, min, max, conversions) and an exact decoding of the 10-byte pattern; consistency of the derived == with partial_cmp is an explicit obligation.",
          "Correct rounding of + - * / and of the conversions is ASSUMED (inline asm, R10), not decided. Four obligations fail on the pinned tree and are recorded as known findings (NaN <= x, NaN >= x, NaN == NaN, +0 != -0)."),
  "C19": ("proof", "get_index is verified with NO precondition on the index (reject mode: a panic = does not return): returns => every idx[k] < dims[k] and the result is the row-major offset < len; injectivity lemma (distinct valid indices address distinct elements); Index/IndexMut/iter/dims. PartialEq::eq is verified for every rank and element type to return true only for equal shapes; the element part of equality and constructor rejection are decided by Kani harnesses on the real crate.",
